@@ -739,6 +739,27 @@ func srSilence() {
 // implementation side
 // ---------------------------------------------------------------------------------------
 
+// srWatch runs f with a watchdog: "returns the state the algorithm defines" presupposes returning
+// (F81, F99). The abandoned goroutine cannot be stopped; callers skip the rest of a heavy family
+// after the first TIMEOUT.
+func srWatch(f func() []byte) []byte {
+	done := make(chan []byte, 1)
+	go func() {
+		defer func() {
+			if r := recover(); r != nil {
+				done <- []byte(fmt.Sprintf("PANIC: %v", r))
+			}
+		}()
+		done <- f()
+	}()
+	select {
+	case out := <-done:
+		return out
+	case <-time.After(15 * time.Second):
+		return []byte("TIMEOUT: no result within 15 s")
+	}
+}
+
 func srResult(evs []gmsl.PDU, err error) []byte {
 	if err != nil {
 		return []byte("err")
@@ -818,22 +839,9 @@ func init() {
 	}))
 	// [ver; universe; sets; auth; rejected; table; evjson]
 	RegisterImpl("C10.resolve_new", wrap(func(ver string, c *srCase, a [][]byte) []byte {
-		// a watchdog: "returns the state the algorithm defines" presupposes returning (F81)
-		done := make(chan []byte, 1)
-		go func() {
-			defer func() {
-				if r := recover(); r != nil {
-					done <- []byte(fmt.Sprintf("PANIC: %v", r))
-				}
-			}()
-			done <- srResult(gmsl.ResolveConflictsNew(gmsl.RoomVersion(ver), c.sets(a[2]), c.list(a[3]), srUserIDForSender, srRejectedFn(a[4])))
-		}()
-		select {
-		case out := <-done:
-			return out
-		case <-time.After(15 * time.Second):
-			return []byte("TIMEOUT: no result within 15 s")
-		}
+		return srWatch(func() []byte {
+			return srResult(gmsl.ResolveConflictsNew(gmsl.RoomVersion(ver), c.sets(a[2]), c.list(a[3]), srUserIDForSender, srRejectedFn(a[4])))
+		})
 	}))
 	// [ver; universe; conflicted; unconflicted; auth; rejected; table; evjson]: the deprecated driver
 	// called directly with conflicted and unconflicted as the two parts of ONE list (F79)
@@ -846,7 +854,9 @@ func init() {
 	}))
 	// [ver; universe; events; auth; rejected; table; evjson]
 	RegisterImpl("C10.resolve_old", wrap(func(ver string, c *srCase, a [][]byte) []byte {
-		return srResult(gmsl.ResolveConflicts(gmsl.RoomVersion(ver), c.list(a[2]), c.list(a[3]), srUserIDForSender, srRejectedFn(a[4])))
+		return srWatch(func() []byte {
+			return srResult(gmsl.ResolveConflicts(gmsl.RoomVersion(ver), c.list(a[2]), c.list(a[3]), srUserIDForSender, srRejectedFn(a[4])))
+		})
 	}))
 
 	// end to end (auth rules inside the model): [ver; universe; sets|events; auth; rejected; ejson; evjson]
@@ -1593,6 +1603,80 @@ func srDirectedV21LongChain(rng *rand.Rand, ver string, n int) *srInput {
 	return in
 }
 
+// F99: power-levels events that cite TWO or THREE earlier power-levels events (accepted by the
+// parser and by Allowed). shape "chain": P(i) cites P(i-1), P(i-2) (, P(i-3)); "diamond": P1 and P2
+// both cite P0, P3 cites both, and so on in layers. The newest one is in the unconflicted state;
+// one name / topic conflict is resolved. first: the newest cited event comes first in auth_events.
+func srDirectedPLMultiCite(rng *rand.Rand, ver string, k int, cites int, diamond bool, newestFirst bool) *srInput {
+	r := srStartRoom(rng, ver, 1)
+	m := r.m
+	var pls []gmsl.PDU
+	for i := 0; i < k; i++ {
+		var cited []gmsl.PDU
+		if diamond && i > 0 {
+			// layers of two (P1 P2 | P3 P4 | ...): every member cites both members of the layer before
+			layer := (i - 1) / 2
+			if layer == 0 {
+				cited = []gmsl.PDU{pls[0]}
+			} else {
+				cited = []gmsl.PDU{pls[2*(layer-1)+2], pls[2*(layer-1)+1]}
+			}
+		} else {
+			for j := len(pls) - 1; j >= 0 && len(cited) < cites; j-- {
+				cited = append(cited, pls[j])
+			}
+		}
+		if !newestFirst {
+			for a, b := 0, len(cited)-1; a < b; a, b = a+1, b-1 {
+				cited[a], cited[b] = cited[b], cited[a]
+			}
+		}
+		auth := append([]gmsl.PDU{r.create}, cited...)
+		auth = append(auth, r.aj)
+		pls = append(pls, m.emit(spec.MRoomPowerLevels, strp(""), r.alice,
+			r.pl(map[string]int{r.alice: 100}, fmt.Sprintf(`,"events":{"x%d":1}`, i)), r.au(auth...)))
+	}
+	p := pls[len(pls)-1]
+	jr := m.emit(spec.MRoomJoinRules, strp(""), r.alice, `{"join_rule":"public"}`, r.au(r.create, p, r.aj))
+	fork := m.last
+	// the conflicting events cite different power-levels events, so their mainline keys differ
+	t := m.emit("m.room.topic", strp(""), r.alice, `{"topic":"t"}`, r.au(r.create, pls[len(pls)/2], r.aj))
+	m.last = fork
+	nm := m.emit("m.room.topic", strp(""), r.alice, `{"topic":"n"}`, r.au(r.create, p, r.aj))
+	setX := []gmsl.PDU{r.create, r.aj, p, jr, t}
+	setY := []gmsl.PDU{r.create, r.aj, p, jr, nm}
+	in := srFinishInput(r.h, ver, [][]gmsl.PDU{setX, setY}, false)
+	in.auth = append([]gmsl.PDU{}, r.h.evs...)
+	return in
+}
+
+// seeded C10-7: within one resolution a join that has no join rules anywhere (neither in the
+// partial state nor among its own auth events) comes after a join that took "public" from its own
+// auth events; the default for the second is "invite", whatever the check before it saw. The
+// join-rules key is conflicted between two events of a user without the power to send them, so the
+// partial state has no join rules.
+func srDirectedJoinWithoutRules(rng *rand.Rand, ver string) *srInput {
+	r := srStartRoom(rng, ver, 4)
+	m, u := r.m, r.h.users
+	bob, carol, dave := u[1], u[2], u[3]
+	pl := m.emit(spec.MRoomPowerLevels, strp(""), r.alice, r.pl(map[string]int{r.alice: 100}, ""), r.au(r.create, r.aj))
+	bi := m.emit(spec.MRoomMember, strp(bob), r.alice, `{"membership":"invite"}`, r.au(r.create, pl, r.aj))
+	bj := m.emit(spec.MRoomMember, strp(bob), bob, `{"membership":"join"}`, r.au(r.create, pl, bi))
+	fork := m.last
+	jrx := m.emit(spec.MRoomJoinRules, strp(""), bob, `{"join_rule":"public"}`, r.au(r.create, pl, bj))
+	m.ts += 5
+	cj := m.emit(spec.MRoomMember, strp(carol), carol, `{"membership":"join"}`, r.au(r.create, pl, jrx))
+	m.ts += 5
+	dj := m.emit(spec.MRoomMember, strp(dave), dave, `{"membership":"join"}`, r.au(r.create, pl))
+	m.last = fork
+	jry := m.emit(spec.MRoomJoinRules, strp(""), bob, `{"join_rule":"knock"}`, r.au(r.create, pl, bj))
+	setX := []gmsl.PDU{r.create, r.aj, pl, bj, jrx, cj, dj}
+	setY := []gmsl.PDU{r.create, r.aj, pl, bj, jry}
+	in := srFinishInput(r.h, ver, [][]gmsl.PDU{setX, setY}, false)
+	in.auth = append([]gmsl.PDU{}, r.h.evs...)
+	return in
+}
+
 // the round-7 families through the current entry point (and the deprecated one) in a few orders
 func srDirectedRound7Cases(c *Ctx) {
 	var ins []*srInput
@@ -1609,7 +1693,25 @@ func srDirectedRound7Cases(c *Ctx) {
 	}
 	ins = append(ins, srDirectedV21LongChain(c.Rng, "12", c.Scale(15, 24)))
 	descs = append(descs, "directed v12 long chain: the number of auth paths is exponential")
+	for _, ver := range []string{"10", "12"} {
+		for _, nf := range []bool{true, false} {
+			ins = append(ins, srDirectedPLMultiCite(c.Rng, ver, 26, 2, false, nf))
+			descs = append(descs, fmt.Sprintf("directed v%s history: 26 power-levels events each citing the two before it (newest first=%v)", ver, nf))
+		}
+		ins = append(ins, srDirectedPLMultiCite(c.Rng, ver, 12, 3, false, true))
+		descs = append(descs, fmt.Sprintf("directed v%s history: 12 power-levels events each citing the three before it", ver))
+		ins = append(ins, srDirectedPLMultiCite(c.Rng, ver, 9, 2, true, true))
+		descs = append(descs, fmt.Sprintf("directed v%s history: power-levels diamonds", ver))
+	}
+	for _, ver := range []string{"6", "10", "12"} {
+		ins = append(ins, srDirectedJoinWithoutRules(c.Rng, ver))
+		descs = append(descs, fmt.Sprintf("directed v%s history: a join without join rules anywhere after a join that had a public join rule", ver))
+	}
+	timedOut := false
 	for i, in := range ins {
+		if timedOut && strings.Contains(descs[i], "power-levels") {
+			continue // the abandoned resolver calls are still burning CPU: one report is enough
+		}
 		cs := srParse(in.ver, in.evjson)
 		c.Count("directed_round7")
 		var table, otable []byte
@@ -1618,7 +1720,11 @@ func srDirectedRound7Cases(c *Ctx) {
 			args := [][]byte{[]byte(in.ver), in.universe, srSetsStr(psets), srCSV(pauth), nil, table, in.evjson}
 			table = srFillTable(cs, "C10.resolve_new", args, 5)
 			args[5] = table
-			c.Run("C10.resolve_new", args, "C10.resolve_new", "C10.prop.v2", descs[i]+fmt.Sprintf(" order %d", p))
+			out := c.Run("C10.resolve_new", args, "C10.resolve_new", "C10.prop.v2", descs[i]+fmt.Sprintf(" order %d", p))
+			if bytes.HasPrefix(out, []byte("TIMEOUT")) {
+				timedOut = true
+				break
+			}
 			var all []gmsl.PDU
 			for _, s := range psets {
 				all = append(all, s...)
